@@ -22,15 +22,16 @@ Definition fl_eqb (a b : fl) : bool :=
   | _, _ => false
   end.
 
-(* Python `a < b` on floats / exact ints: nan compares false with everything *)
-Definition fl_ltb (a b : fl) : bool :=
+(* Python `a <= b` on floats / exact ints (an int is the exact rational FFin (inject_Z z), and Python compares
+   int with float exactly): nan compares false with everything *)
+Definition fl_leb (a b : fl) : bool :=
   match a, b with
   | FNan, _ => false
   | _, FNan => false
-  | FFin p, FFin q => negb (Qle_bool q p)
+  | FFin p, FFin q => Qle_bool p q
   | FFin _, FInf neg => negb neg
   | FInf neg, FFin _ => neg
-  | FInf x, FInf y => x && negb y
+  | FInf x, FInf y => x || negb y
   end.
 
 Definition fl_is_nan (a : fl) : bool := match a with FNan => true | _ => false end.
@@ -166,14 +167,14 @@ Definition atom_str (a : atom) : str :=
 Definition py_str (ostr : str) (v : pyval) : str :=
   match v with PA a => atom_str a | _ => ostr end.
 
-Definition two53 : Z := 9007199254740992%Z.
-
-(* float(v): exact for floats and ints up to 2^53; ORACLE `ofloat` for strings and larger ints;
-   None = ValueError/TypeError *)
-Definition to_float (ofloat : option fl) (v : pyval) : option fl :=
+(* RANGE's `numeric_value = value if isinstance(value, int | float) else float(value)`:
+   ints (of ANY size) and floats are kept as they are -- no conversion, no rounding, no OverflowError;
+   every other value goes through float(): ORACLE `ofloat` for strings (may be inf / nan; None = ValueError),
+   TypeError (None) for None / lists / dicts / literal zones.  (bool is an int; RANGE rejects it before.) *)
+Definition num_value (ofloat : option fl) (v : pyval) : option fl :=
   match v with
   | PA (AFloat f _) => Some f
-  | PA (AInt z) => if (Z.abs z <=? two53)%Z then Some (FFin (inject_Z z)) else ofloat
+  | PA (AInt z) => Some (FFin (inject_Z z))
   | PA (ABool b) => Some (FFin (inject_Z (if b then 1 else 0)))
   | PA (AStr _) => ofloat
   | _ => None
